@@ -17,12 +17,12 @@ PROPERTY = "C09"
 LEVEL = "exploration"
 RULE = ("every BaseException subclass found in builtins at run time (constructible ones; KeyboardInterrupt only with the "
         "switch that routes it to the peer) x generated argument tuples (plain values, non-plain values, tuples mixing immutable "
-        "containers with non-plain values, class-specific "
-        "constructor shapes) x 2^2 sender switches x 2^2 receiver switches; custom classes: defined in an imported module, "
+        "containers with non-plain values, class-specific constructor shapes; instances annotated with data attributes of "
+        "their own after plainer instances of the same class) x 2^2 sender switches x 2^2 receiver switches; custom classes: defined in an imported module, "
         "importable canary module (file on sys.path that logs when executed), unknown module; hostile MSG_EXCEPTION "
         "payloads (shared grammar with C07). distinct = (class, argument shape classes, switches) or payload bytes; "
         "non-trivial = has at least one argument or attribute")
-ASSUMPTIONS = ["an argument-less StopIteration travels as the published short form EXC_STOP_ITERATION, which cannot carry traceback/version text; for it only non-disclosure is checked",
+ASSUMPTIONS = ["an argument-less StopIteration travels as the published short form EXC_STOP_ITERATION, which cannot carry traceback/version text or attributes; for it only non-disclosure is checked",
                "the ground truth for args/attributes is the exception instance actually raised on the serving side (read in "
                "process), normalised as the statement says: immutable plain values kept, others replaced by repr()",
                "both peers share one interpreter: 'module not yet imported' is emulated with classes whose __module__ names a "
@@ -199,6 +199,20 @@ def run_matrix(ctx, rng, classes, per_class):
                             ctx.count("unconstructible_arg_tuples")
                             continue
                         one_case(ctx, pair, root, box, raised, snd, rcv)
+                        if rng.random() < .35 and not (issubclass(cls, StopIteration) and not args):
+                            # (an argument-less StopIteration travels as the published one-integer short form: see ASSUMPTIONS)
+                            # the same class again, this instance carrying data attributes of its own (set after construction,
+                            # as code that annotates an exception before re-raising does)
+                            try:
+                                again = cls(*args)
+                                again.code = rng.randrange(100)
+                                again.detail = ("ctx", rng.randrange(9), None)
+                                again.payload = [1, 2]          # not immutable: not part of the comparison
+                            except Exception:
+                                ctx.count("classes_without_instance_attributes")
+                            else:
+                                ctx.count("instances_with_own_attributes")
+                                one_case(ctx, pair, root, box, again, snd, rcv)
                         if ctx.enough():
                             return
                 # an exception whose arguments the serializer cannot encode: the requester gets the encoding error instead (C08);
